@@ -81,7 +81,9 @@ def make_content(S, P=2, C=1, sub=2, F=2, labels='equal', analog='full', extras=
         for i in range(events):
             c.event_times[i] = S.f32('evt'); c.event_flags[i] = S.bv('evf', 8); c.event_labels[i] = S.text('evl', 4)
     if reserved:
+        # words the specification leaves reserved or unused here: carried through by a faithful reader/writer
         c.key_block = S.bv('kb', 16)
+        for w in (13, 14, 80, 147, 152, 198, 235, 256): c.reserved[w] = S.bv('rsv', 16)
     # frames
     for f in range(F):
         pts = [[S.f32('x'), S.f32('y'), S.f32('z'), S.f32('r')] for _ in range(P)]
